@@ -384,8 +384,22 @@ def _enc(o) -> bytes:
             r = r + _enc(x)
         return r
     if isinstance(o, (dict, frozendict)):
-        items = o.items()
+        items = list(o.items())
         r = head(5, len(items))
+        if _CANONICAL[0]:
+            # cbor2 canonical=True: map entries ordered by (length of encoded key, encoded key)
+            enc = [(_enc(k), _enc(v)) for k, v in items]
+            done = []
+            for ek, ev in enc:
+                pos = len(done)
+                for i, (dk, _) in enumerate(done):
+                    if len(ek) < len(dk) or (len(ek) == len(dk) and ek < dk):
+                        pos = i
+                        break
+                done.insert(pos, (ek, ev))
+            for ek, ev in done:
+                r = r + ek + ev
+            return r
         for k, v in items:
             r = r + _enc(k) + _enc(v)
         return r
@@ -411,15 +425,31 @@ def plain_dumps(o) -> bytes:
     return _enc(o)
 
 
-def dumps(o, **kw) -> bytes:
+_CANONICAL = [False]
+_IGNORED_DUMPS_KW = ("datetime_as_timestamp", "timezone", "default", "date_as_datetime")
+
+
+def dumps(o, canonical=False, **kw) -> bytes:
     STATS["dumps"] += 1
+    for k in kw:
+        if k not in _IGNORED_DUMPS_KW:
+            raise CBOREncodeError(f"cbor model: dumps option {k!r} is not modelled")
+    if canonical:
+        _CANONICAL[0] = True
+        try:
+            b = _enc(o)
+        finally:
+            _CANONICAL[0] = False
+        # canonical output may reorder maps: the provenance memo must return the reordered value
+        _MEMO[id(b)] = (b, _dec(b, 0, False, 0)[0])
+        return b
     b = _enc(o)
     _MEMO[id(b)] = (b, o)
     return b
 
 
 def dump(o, fp, **kw):
-    fp.write(dumps(o))
+    fp.write(dumps(o, **kw))
 
 
 # ------------------------------------------------------------------------------------------------ normaliser
